@@ -511,7 +511,7 @@ func runPoolCase(c *poolCase) {
 			if op.Panic != "" {
 				return
 			}
-			op.Execs, _ = h.round(ids(100+10*k, int(c.Max)), nil, 400*time.Millisecond)
+			op.Execs, _ = h.round(ids(100+10*k, int(c.Max)), nil, 5*time.Second)
 		}
 	case "upd":
 		var names []string
@@ -638,7 +638,7 @@ func runPoolCase(c *poolCase) {
 			}
 		}
 		var execs []pExec
-		execs, c.Peak = h.round(all, failing, 500*time.Millisecond)
+		execs, c.Peak = h.round(all, failing, 5*time.Second)
 		for _, ex := range execs {
 			if ex.End != 0 && (ex.Results != nil || ex.Err != "") {
 				c.Done++
@@ -671,7 +671,7 @@ func runPoolCase(c *poolCase) {
 		}
 		time.Sleep(5 * time.Millisecond)
 		// the instances must all be back: max simultaneous parkers again
-		c.Execs2, c.Peak2 = h.round(ids(50, int(c.Max)), nil, 800*time.Millisecond)
+		c.Execs2, c.Peak2 = h.round(ids(50, int(c.Max)), nil, 5*time.Second)
 	case "iso":
 		// requests none of whose rules returns anything: their (empty) result maps must stay empty
 		var quiet []pExec
@@ -681,7 +681,7 @@ func runPoolCase(c *poolCase) {
 			quiet = append(quiet, h.requestWith([]string{"sort", "em", "mix"}[k%3], &pReq{Id: int64(500 + k), Quiet: true}, nil))
 			time.Sleep(2 * time.Millisecond)
 		}
-		execs, _ := h.round(ids(1, c.Clients), nil, 500*time.Millisecond)
+		execs, _ := h.round(ids(1, c.Clients), nil, 5*time.Second)
 		c.Execs = execs
 		for _, ex := range quiet {
 			if len(ex.raw) != 0 || len(ex.Results) != 0 {
@@ -703,7 +703,7 @@ func runPoolCase(c *poolCase) {
 			c.Probes = append(c.Probes, sel)
 		}
 		// more traffic, then the result maps handed out earlier must be unchanged
-		h.round(ids(60, int(c.Max)), nil, 500*time.Millisecond)
+		h.round(ids(60, int(c.Max)), nil, 5*time.Second)
 		for _, ex := range execs {
 			if fmt.Sprint(valuesOf(ex.raw)) != fmt.Sprint(ex.Results) {
 				c.Mutated = true
